@@ -412,7 +412,7 @@ func (n *PathSelectorNode) Get(src, dst reflect.Value) error {
 		}
 	case reflect.Struct:
 		typ := src.Type()
-		for i := 0; i < typ.Len(); i++ {
+		for i := 0; i < typ.NumField(); i++ {
 			tag := runtime.StructTagFromField(typ.Field(i))
 			child, found, err := n.Field(tag.Key)
 			if err != nil {
@@ -620,7 +620,7 @@ func (n *PathRecursiveNode) Get(src, dst reflect.Value) error {
 		return nil
 	case reflect.Struct:
 		typ := src.Type()
-		for i := 0; i < typ.Len(); i++ {
+		for i := 0; i < typ.NumField(); i++ {
 			tag := runtime.StructTagFromField(typ.Field(i))
 			child, found, err := n.Field(tag.Key)
 			if err != nil {
